@@ -271,7 +271,7 @@ def gen_jobs(rng, n):
                 lines = [ace_gen.std_text(rng, plat) for _ in range(rng.randint(1, 4))] + ["remark std"]
             else:
                 header = header.replace("ACL1", rng.choice(["ACL1", "Name-2", "x.y", "100"]))
-            ind = rng.choice([" ", "  ", "   "])
+            ind = rng.choice([" ", "  ", "   ", "\t"])
             text = "\n".join([header] + [ind + s for s in lines])
             kw = dict(base, port_nr=rng.random() < 0.4, protocol_nr=rng.random() < 0.4, indent=ind)
             add(rng.choice(["Acl", "Acl", "acls"]), text, kw, vm)
@@ -285,7 +285,7 @@ def gen_jobs(rng, n):
                     m = rng.choice(sp)
                     mems.append(f"{(k + 1) * 10} {m}" if plat == "nxos" and rng.random() < 0.7 else m)
             if mems:
-                ind = rng.choice([" ", "  ", "   "])
+                ind = rng.choice([" ", "  ", "   ", "\t"])
                 add(rng.choice(["AddrGroup", "addrgroups"]), "\n".join([hdr] + [ind + m for m in mems]), dict(base, indent=ind), vm)
     return jobs
 
